@@ -175,6 +175,12 @@ func (c *collection) CreateIndex(
 	// state must be rolled back together with the transaction.
 	restore := c.snapshotIndexes()
 
+	err = c.reloadIndexes(ctx)
+	if err != nil {
+		restore()
+		return client.IndexDescription{}, err
+	}
+
 	index, err := c.createIndex(ctx, desc)
 	if err != nil {
 		restore()
@@ -197,6 +203,28 @@ func (c *collection) snapshotIndexes() func() {
 		c.indexes = indexes
 		c.def.Version.Indexes = descriptions
 	}
+}
+
+// reloadIndexes replaces the index list of this handle by the stored one, read inside the
+// current transaction. Index DDL rewrites the whole collection version: working from the list
+// the handle was fetched with would silently undo DDL committed since then, and reading the
+// stored version makes concurrent DDL transactions conflict instead of overwriting each other.
+func (c *collection) reloadIndexes(ctx context.Context) error {
+	stored, err := description.GetCollectionByID(ctx, c.Version().VersionID)
+	if err != nil {
+		return err
+	}
+	indexes := make([]CollectionIndex, 0, len(stored.Indexes))
+	c.def.Version.Indexes = stored.Indexes
+	for _, desc := range stored.Indexes {
+		index, err := NewCollectionIndex(c, desc)
+		if err != nil {
+			return err
+		}
+		indexes = append(indexes, index)
+	}
+	c.indexes = indexes
+	return nil
 }
 
 func processCreateIndexRequest(
@@ -375,6 +403,12 @@ func (c *collection) DropIndex(ctx context.Context, indexName string) error {
 
 	// If the index is not dropped in the store, it must remain in the in-memory state.
 	restore := c.snapshotIndexes()
+
+	err = c.reloadIndexes(ctx)
+	if err != nil {
+		restore()
+		return err
+	}
 
 	err = c.dropIndex(ctx, indexName)
 	if err != nil {
